@@ -382,16 +382,24 @@ func run(s *kernel.Sim, prop, cfg string) {
 		return n.Dial(addr, n.ClientAddr(handlerIP))
 	}
 
-	h := forward.NewHandler(&forward.HandlerConfig{
+	// The handler may probe its upstreams once while it is being constructed.
+	initDur := kernel.Pick(t, []time.Duration{0, 0, 30 * time.Second}, "healthcheck-init")
+	hconf := &forward.HandlerConfig{
 		Logger:                     slog.New(slog.DiscardHandler),
 		HealthcheckDomainTmpl:      hcDomain,
 		UpstreamsAddresses:         mainConf,
 		FallbackAddresses:          fbConf,
 		HealthcheckBackoffDuration: backoff,
-	})
-	defer h.Close()
+		HealthcheckInitDuration:    initDur,
+	}
+	var h *forward.Handler
+	defer func() {
+		if h != nil {
+			_ = h.Close()
+		}
+	}()
 
-	s.Logf("config mains=%d fallbacks=%d backoff=%v", nMain, nFB, backoff)
+	s.Logf("config mains=%d fallbacks=%d backoff=%v init=%v", nMain, nFB, backoff, initDur)
 
 	// Reference state machine.
 	active := map[*upstream]bool{}
@@ -407,6 +415,104 @@ func run(s *kernel.Sim, prop, cfg string) {
 	}
 
 	ctx := dnsserver.ContextWithServerInfo(context.Background(), &dnsserver.ServerInfo{Name: "sim", Addr: "x", Proto: dnsserver.ProtoDNS})
+	// judgeRefresh runs one health-check round through call and advances the
+	// reference state machine; it returns false after a violation.
+	judgeRefresh := func(label string, desc []string, now time.Time, call func() error) bool {
+			// ---- health-check round ----
+		marks := map[*upstream]int{}
+		for _, m := range mains {
+			marks[m] = m.received(hcDomain)
+		}
+		rerr := call()
+		synctest.Wait()
+		s.Logf("%s t=%v refresh %v -> err=%v", label, time.Since(baseTime()), desc, rerr != nil)
+		if nFB == 0 {
+			for _, m := range mains {
+				if m.received(hcDomain) != marks[m] {
+					s.Failf("C17/probe-without-fallbacks", "health probe sent although no fallbacks are configured", "%s (%s)", m, label)
+				}
+			}
+
+			return true
+		}
+
+		// When exactly the handler noted a failure is only known to lie
+		// between the arrival of the probe and the return of Refresh; a
+		// backoff boundary inside that window is not judged.
+		end := time.Now()
+		for _, m := range mains {
+			probed := m.received(hcDomain) != marks[m]
+			lo, failedBefore := failedLo[m]
+			hi := failedHi[m]
+			// The handler looks at this upstream at some instant between
+			// the start and the end of the round.
+			surelyIn := failedBefore && end.Sub(lo) < backoff
+			surelyOut := !failedBefore || now.Sub(hi) >= backoff
+			if !surelyIn && !surelyOut {
+				s.Probe("backoff-boundary-uncertain")
+				surelyIn, surelyOut = !probed, probed
+			}
+
+			if surelyIn {
+				s.Probe("main-in-backoff-skipped")
+				if probed {
+					s.Failf("C17/probe-in-backoff", "main upstream probed before its backoff had elapsed",
+						"%s failed between %v and %v ago, backoff %v", m, now.Sub(hi), now.Sub(lo), backoff)
+
+					return false
+				}
+				active[m] = false
+
+				continue
+			}
+
+			if !probed {
+				s.Failf("C17/probe-missing", "main upstream out of backoff was not probed",
+					"%s state=%s failed between %v and %v ago, backoff=%v", m, m.getState(), now.Sub(hi), now.Sub(lo), backoff)
+
+				return false
+			}
+
+			if c := classOf(m.getState()); c == "valid" || c == "valid-empty" {
+				if !active[m] {
+					s.Probe("main-recovered")
+				}
+				active[m] = true
+				delete(failedLo, m)
+				delete(failedHi, m)
+			} else {
+				active[m] = false
+				m.mu.Lock()
+				failedLo[m] = m.lastProbe
+				m.mu.Unlock()
+				failedHi[m] = end
+				s.Fault("probe-failed-" + classOf(m.getState()))
+			}
+		}
+
+
+		return true
+	}
+
+	if initDur > 0 {
+		// Upstreams may be down at start-up.
+		for _, u := range all {
+			if t.Chance(1, 3, "state-change") {
+				u.setState(kernel.Pick(t, states, "state"))
+			}
+		}
+		var desc []string
+		for _, u := range all {
+			desc = append(desc, u.String()+"="+u.getState())
+		}
+		s.Probe("probed-at-construction")
+		if !judgeRefresh("construction", desc, time.Now(), func() error { h = forward.NewHandler(hconf); return nil }) {
+			return
+		}
+	} else {
+		h = forward.NewHandler(hconf)
+	}
+
 	nOps := t.Range(3, 30, "ops")
 	qn := 0
 	for i := 0; i < nOps && s.Failed() == nil; i++ {
@@ -430,76 +536,8 @@ func run(s *kernel.Sim, prop, cfg string) {
 		now := time.Now()
 
 		if t.Chance(1, 3, "refresh") {
-			// ---- health-check round ----
-			marks := map[*upstream]int{}
-			for _, m := range mains {
-				marks[m] = m.received(hcDomain)
-			}
-			rerr := h.Refresh(ctx)
-			synctest.Wait()
-			s.Logf("op %d t=%v refresh %v -> err=%v", i, time.Since(baseTime()), desc, rerr != nil)
-			if nFB == 0 {
-				for _, m := range mains {
-					if m.received(hcDomain) != marks[m] {
-						s.Failf("C17/probe-without-fallbacks", "health probe sent although no fallbacks are configured", "%s", m)
-					}
-				}
-
-				continue
-			}
-
-			// When exactly the handler noted a failure is only known to lie
-			// between the arrival of the probe and the return of Refresh; a
-			// backoff boundary inside that window is not judged.
-			end := time.Now()
-			for _, m := range mains {
-				probed := m.received(hcDomain) != marks[m]
-				lo, failedBefore := failedLo[m]
-				hi := failedHi[m]
-				// The handler looks at this upstream at some instant between
-				// the start and the end of the round.
-				surelyIn := failedBefore && end.Sub(lo) < backoff
-				surelyOut := !failedBefore || now.Sub(hi) >= backoff
-				if !surelyIn && !surelyOut {
-					s.Probe("backoff-boundary-uncertain")
-					surelyIn, surelyOut = !probed, probed
-				}
-
-				if surelyIn {
-					s.Probe("main-in-backoff-skipped")
-					if probed {
-						s.Failf("C17/probe-in-backoff", "main upstream probed before its backoff had elapsed",
-							"%s failed between %v and %v ago, backoff %v", m, now.Sub(hi), now.Sub(lo), backoff)
-
-						return
-					}
-					active[m] = false
-
-					continue
-				}
-
-				if !probed {
-					s.Failf("C17/probe-missing", "main upstream out of backoff was not probed",
-						"%s state=%s failed between %v and %v ago, backoff=%v", m, m.getState(), now.Sub(hi), now.Sub(lo), backoff)
-
-					return
-				}
-
-				if c := classOf(m.getState()); c == "valid" || c == "valid-empty" {
-					if !active[m] {
-						s.Probe("main-recovered")
-					}
-					active[m] = true
-					delete(failedLo, m)
-					delete(failedHi, m)
-				} else {
-					active[m] = false
-					m.mu.Lock()
-					failedLo[m] = m.lastProbe
-					m.mu.Unlock()
-					failedHi[m] = end
-					s.Fault("probe-failed-" + classOf(m.getState()))
-				}
+			if !judgeRefresh(fmt.Sprintf("op %d", i), desc, now, func() error { return h.Refresh(ctx) }) {
+				return
 			}
 
 			continue
